@@ -1,7 +1,6 @@
 //! Scenario generators for the session suites (D5) over `d5::Exec`.
 use crate::d5::Exec;
 use crate::util::*;
-use bitvec::array::BitArray;
 
 #[derive(Clone)]
 pub struct Geo {
@@ -32,15 +31,16 @@ impl Img {
     pub fn frag(&self, i0: usize) -> &[u8] {
         &self.bytes[i0 * self.sz..(i0 + 1) * self.sz]
     }
-    /// coded fragment k (1-based): XOR of the data fragments selected by the library's own row generator
+    /// coded fragment k (1-based): XOR of the data fragments selected by row k (independent row generator, `rows.rs`);
+    /// an undefined row (non-terminating generator) yields a zero fragment — callers skip such indices
     pub fn coded(&self, k: u32) -> Vec<u8> {
-        let mut row = BitArray::<[u8; 2048]>::ZERO;
-        flash_algo_new::fragmentation::get_parity_matrix_row(k, self.n as u32, &mut row);
         let mut out = vec![0u8; self.sz];
-        for i in 0..self.n {
-            if row[i] {
-                for (o, b) in out.iter_mut().zip(self.frag(i)) {
-                    *o ^= *b;
+        if let Some(row) = crate::rows::parity_row(k, self.n, crate::rows::ffr()) {
+            for i in 0..self.n {
+                if row[i] {
+                    for (o, b) in out.iter_mut().zip(self.frag(i)) {
+                        *o ^= *b;
+                    }
                 }
             }
         }
@@ -227,6 +227,48 @@ pub fn gen_sessions(seed: u64, thorough: bool, o: &mut Out) -> Vec<String> {
         q.push("check".into());
         q.push("dump".into());
     }
+    // directed classes: (a) losses confined to the 64 signature bytes (offsets 4..68), which the CRC does not cover,
+    // with zero-filled and random signatures; (b) exactly as many losses as the parity capacity on the smallest slots
+    let ndir = if thorough { 60 } else { 12 };
+    for it in 0..ndir {
+        let block = 256usize;
+        let slot = (17408 / block + 1 + (it % 3)) * block;
+        let sz = if it % 3 == 0 { 1 } else { *rng.pick(&[1usize, 2, 4, 8, 16]) };
+        let cap = capacity(slot, sz);
+        let room = slot - 0x4400;
+        let n = (room / sz).min(if sz == 1 { 200 } else { 120 }).max(68 / sz + 2);
+        let mut img = Img::make(&mut rng, sz, n);
+        if it % 2 == 0 {
+            // zero signature (a placeholder, as shipped images have)
+            for b in &mut img.bytes[4..68.min(sz * n)] {
+                *b = 0;
+            }
+        }
+        // fragments lying entirely inside bytes 4..68
+        let inside: Vec<usize> = (0..n).filter(|i| i * sz >= 4 && (i + 1) * sz <= 68).collect();
+        let mut lost: Vec<usize> = inside.clone();
+        rng.shuffle(&mut lost);
+        let want = match it % 3 { 0 => cap, 1 => cap.min(lost.len()).saturating_sub(1).max(1), _ => 2 };
+        lost.truncate(want.min(cap).min(lost.len()));
+        o.stat("loss-inside-signature-bytes");
+        if lost.len() == cap {
+            o.stat("loss-exactly-capacity");
+        }
+        let nslots = 4;
+        q.push(format!("new dev {} {} {}", nslots, slot, block));
+        q.extend(img.lines());
+        q.push(format!("start {} {}", sz, n));
+        for i in 1..=n as u32 {
+            if !lost.contains(&(i as usize - 1)) {
+                q.push(format!("seg {} {}", i, hex(&img.fragment(i))));
+            }
+        }
+        for k in 1..=(lost.len() as u32 + 6) {
+            q.push(format!("seg {} {}", n as u32 + k, hex(&img.fragment(n as u32 + k))));
+        }
+        q.push("check".into());
+        q.push("dump".into());
+    }
     q
 }
 
@@ -290,16 +332,26 @@ pub struct Script {
 pub fn small_script(rng: &mut Rng, o: &mut Out, with_preamble: bool) -> Script {
     // small geometries so that every operation boundary can be enumerated
     let nslots = *rng.pick(&[4usize, 4, 5, 6]);
-    let block = *rng.pick(&[1024usize, 4096]);
-    let slot = ((17408 / block) + 1 + rng.range(0, 2) as usize) * block;
+    let variant = rng.below(6); // 0..3 small, 4 = many losses (rows with index >= 8), 5 = image fills the slot, losses = capacity
+    let block = if variant == 5 { 256 } else { *rng.pick(&[1024usize, 4096]) };
+    let slot = if variant == 5 { (17408 / block + 1) * block } else { ((17408 / block) + 1 + rng.range(0, 2) as usize) * block };
     let geo = Geo { nslots, slot, block };
-    let sz = *rng.pick(&[1usize, 3, 4, 7, 17, 40]);
+    let sz = if variant == 5 { *rng.pick(&[2usize, 3, 4]) } else { *rng.pick(&[1usize, 3, 4, 7, 17, 40]) };
     let room = slot - 0x4400;
-    let n = rng.range(2, 14).min((room / sz) as u64) as usize;
     let cap = capacity(slot, sz);
+    let n = match variant {
+        4 => rng.range(20, 40).min((room / sz) as u64) as usize,
+        5 => (room / sz).min(cap + 15),
+        _ => rng.range(2, 14).min((room / sz) as u64) as usize,
+    };
     let img = Img::make(rng, sz, n.max(1));
     let n = img.n;
-    let nloss = rng.range(0, (cap.min(n).min(4)) as u64) as usize;
+    let nloss = match variant {
+        4 => rng.range(9, 14).min(cap.min(n) as u64) as usize,
+        5 => cap.min(n),
+        _ => rng.range(0, (cap.min(n).min(4)) as u64) as usize,
+    };
+    o.stat(&format!("script-variant-{}", ["small", "small", "small", "small", "many-losses", "losses=capacity"][variant as usize]));
     let mut idx: Vec<usize> = (0..n).collect();
     rng.shuffle(&mut idx);
     let lost: Vec<usize> = idx[..nloss].to_vec();
@@ -576,11 +628,9 @@ pub fn gen_malformed(seed: u64, thorough: bool, o: &mut Out) -> Vec<String> {
         let s = small_script(&mut rng, o, it % 2 == 0);
         let n = s.img.n as u32;
         let mut bad: Vec<u32> = vec![0, n + 1240005543, 1 << 14, 1 << 16, 0xFFFF_FFFF, 0xFFFF_FFFE, n + 2049, n + 16384, (rng.next() as u32) | 0x8000_0000];
-        if cfg!(feature = "ffr") {
-            // with force-full-r, coded fragment 1240005543 has PRBS seed 0 (the fixed point of PRBS23): the row
-            // generator never returns (DESIGN.md, findings outside the given properties) — not deliverable
-            bad.retain(|b| *b != n + 1240005543);
-        }
+        // with force-full-r, coded fragment 1240005543 has PRBS seed 0 (the fixed point of PRBS23): the row generator
+        // never returns (DESIGN.md, findings outside the given properties) — not deliverable
+        bad.retain(|b| *b <= n || crate::rows::parity_row(*b - n, n as usize, crate::rows::ffr()).is_some());
         // positions: before the first fragment, in stage 1, in stage 2, after completion
         let mut positions: Vec<usize> = (1..s.ops.len()).collect();
         if !thorough {
@@ -610,6 +660,33 @@ pub fn gen_malformed(seed: u64, thorough: bool, o: &mut Out) -> Vec<String> {
                 q.push(op.clone());
             }
             q.push("dump".into());
+        }
+    }
+    // directed: a plausible in-progress firmware/parity pair whose parity header announces 2047..16384 rows, on slots
+    // large enough for the matrix diagonal of row 2048 to lie inside the slot; plus one written diagonal byte
+    for slot in [65536usize, 262144, 524288, 1048576] {
+        for segsz in [1u32, 16, 256] {
+            for rows in [2047u32, 2048, 2049, 3000, 4000, 16384] {
+                if !thorough && (slot == 65536 || rows == 3000) {
+                    continue;
+                }
+                q.push(format!("new dev 4 {} 4096", slot));
+                let h = |k: u32, sq: u32, n: u32| -> String {
+                    hex(&[k, sq, segsz, n, 0xFFFF_FFFF, 0xFFFF_FFFF, 0xFFFF_FFFF].iter().flat_map(|x| x.to_le_bytes()).collect::<Vec<u8>>())
+                };
+                q.push(format!("poke 0 {}", h(0, 0, 10)));
+                q.push(format!("poke {} {}", slot, h(1, 1, rows)));
+                // a written diagonal byte of row 0 (so that recovery enters stage 2)
+                let moff = rows as usize * segsz as usize;
+                if 1024 + moff < slot {
+                    q.push(format!("poke {} fe", slot + 1024 + moff));
+                }
+                q.push("recover".into());
+                q.push(format!("seg 11 {}", hex(&vec![0u8; segsz as usize])));
+                q.push("bl".into());
+                q.push("start 4 18".into());
+                o.stat("crafted-oversize-parity-rows");
+            }
         }
     }
     // arbitrary flash contents: random / adversarial headers, status tables and data, then every query call
@@ -817,10 +894,20 @@ pub fn gen_ring(seed: u64, thorough: bool, o: &mut Out) -> Vec<String> {
             a
         };
         push(&mut q, &mut ex, format!("new dev {} {} 4096", nslots, slot));
-        let steps = rng.range(8, if thorough { 60 } else { 30 });
+        let steps = rng.range(12, if thorough { 80 } else { 45 });
         let mut live_img: Option<Img> = None;
         for _ in 0..steps {
-            let choice = rng.below(12);
+            let mut choice = rng.below(12);
+            // drive pending images through the bootloader most of the time, so that several images get confirmed
+            // and the ring wraps around them
+            if rng.chance(2, 3) {
+                let a = push(&mut q, &mut ex, "bl life".into());
+                if a != "res=Idle" {
+                    choice = 8;
+                } else if live_img.is_some() && rng.chance(1, 2) {
+                    choice = 4;
+                }
+            }
             match choice {
                 0..=3 => {
                     let (isz, inn) = (*rng.pick(&[3usize, 4, 5]), rng.range(15, 24) as usize);
@@ -885,7 +972,7 @@ pub fn gen_ring(seed: u64, thorough: bool, o: &mut Out) -> Vec<String> {
                         o.stat("ring-copy-done");
                     } else if let Some(r) = bl.strip_prefix("res=Unack(") {
                         let sl: usize = r.trim_end_matches(')').parse().unwrap();
-                        if rng.chance(2, 3) {
+                        if rng.chance(4, 5) {
                             push(&mut q, &mut ex, format!("mark {} ok", sl));
                             o.stat("ring-confirm");
                         } else {
